@@ -173,3 +173,86 @@ def thread_stress(ops, expected, n_threads, seconds, seed, switch=1e-6, watchdog
             hung = True
     sys.setswitchinterval(old)
     return {'ops': sum(counts), 'per_thread': counts, 'wrong': wrong, 'exceptions': excs, 'hung': hung, 'wall': time.time() - t0}
+
+
+class Handover:
+    """Two REAL threads with a deterministic hand-over schedule (context bound 3, true interleaving):
+    thread 1 runs A up to its k-th LINE event and stops there; thread 2 runs B up to its j-th LINE event and stops there;
+    thread 1 resumes and finishes A; thread 2 resumes and finishes B. Both stops happen inside sys.monitoring callbacks
+    (Event.wait releases the GIL), so the order of bytecodes is exactly A[0:k] B[0:j] A[k:] B[j:]."""
+
+    def __init__(self, a5dir, tool=5):
+        self.a5dir = a5dir
+        self.tool = tool
+        mon.use_tool_id(tool, 'rv-handover')
+        mon.register_callback(tool, mon.events.LINE, self._line)
+        self.reset(None, None, 0, 0)
+
+    def close(self):
+        mon.set_events(self.tool, 0)
+        mon.register_callback(self.tool, mon.events.LINE, None)
+        mon.free_tool_id(self.tool)
+
+    def reset(self, A, B, k, j):
+        self.A, self.B, self.k, self.j = A, B, k, j
+        self.ta = self.tb = None
+        self.ca = self.cb = 0
+        self.a_go, self.b_go, self.b_resume = threading.Event(), threading.Event(), threading.Event()
+        self.a_stopped_at = self.b_stopped_at = None
+        self.timeouts = 0
+        self.res = {}
+
+    def _line(self, code, lineno):
+        if not code.co_filename.startswith(self.a5dir):
+            return mon.DISABLE
+        tid = threading.get_ident()
+        if tid == self.ta:
+            self.ca += 1
+            if self.ca == self.k:
+                self.a_stopped_at = (os.path.relpath(code.co_filename, self.a5dir), code.co_name, lineno)
+                self.b_go.set()
+                if not self.a_go.wait(20):
+                    self.timeouts += 1
+        elif tid == self.tb:
+            self.cb += 1
+            if self.cb == self.j:
+                self.b_stopped_at = (os.path.relpath(code.co_filename, self.a5dir), code.co_name, lineno)
+                self.a_go.set()
+                if not self.b_resume.wait(20):
+                    self.timeouts += 1
+
+    def _run_a(self):
+        self.ta = threading.get_ident()
+        try:
+            self.res['A'] = ('ok', self.A())
+        except BaseException as e:
+            self.res['A'] = ('exc', e)
+        finally:
+            self.b_go.set()       # if A never reached event k, B simply runs afterwards
+            self.b_resume.set()
+
+    def _run_b(self):
+        self.tb = threading.get_ident()
+        if not self.b_go.wait(20):
+            self.timeouts += 1
+        try:
+            self.res['B'] = ('ok', self.B())
+        except BaseException as e:
+            self.res['B'] = ('exc', e)
+        finally:
+            self.a_go.set()       # if B finished before its j-th event, let A continue
+
+    def run(self, A, B, k, j):
+        self.reset(A, B, k, j)
+        mon.set_events(self.tool, mon.events.LINE)
+        try:
+            t1 = threading.Thread(target=self._run_a, daemon=True)
+            t2 = threading.Thread(target=self._run_b, daemon=True)
+            t2.start()
+            t1.start()
+            t1.join(60)
+            t2.join(60)
+            hung = t1.is_alive() or t2.is_alive()
+        finally:
+            mon.set_events(self.tool, 0)
+        return self.res.get('A'), self.res.get('B'), hung or self.timeouts > 0
